@@ -279,7 +279,7 @@ proof fn lemma_chain_frame(a: Seq<Compiler>, b: Seq<Compiler>, c: int, j: int, e
 spec fn capture_ok(old_cs: Seq<Compiler>, new_cs: Seq<Compiler>, e: int, i: int, j: int, name: Seq<char>) -> bool {
     &&& 0 <= e < old_cs.len() - 1
     &&& old_cs[e].is_last_match(i, name) && old_cs[e].locals[i].depth.is_some()
-    &&& forall|k: int| e < k < old_cs.len() - 1 ==> !resolvable(#[trigger] old_cs[k], name)
+    &&& forall|k: int| e < k < old_cs.len() - 1 ==> (#[trigger] old_cs[k]).no_match(name)
     &&& new_cs[e].locals[i].is_captured
     &&& chain(new_cs, old_cs.len() - 1, j, e, i)
 }
@@ -803,18 +803,18 @@ impl Parser {
     //@  ensures final(self).pwf(), final(self).compilers.len() == old(self).compilers.len(), old(self).has_error() ==> final(self).has_error()
     //@  ensures forall|k: int| 0 <= k < old(self).compilers.len() ==> capture_frame(#[trigger] old(self).compilers@[k], final(self).compilers@[k])
     //@  ensures r matches Some(j) ==> captured_somewhere(old(self).compilers@, final(self).compilers@, j as int, name.source@)
-    //@  ensures r is None ==> final(self).has_error() || forall|k: int| 0 <= k < old(self).compilers.len() - 1 ==> !resolvable(#[trigger] old(self).compilers@[k], name.source@)
+    //@  ensures r is None ==> final(self).has_error() || forall|k: int| 0 <= k < old(self).compilers.len() - 1 ==> (#[trigger] old(self).compilers@[k]).no_match(name.source@)
     //@  at body.start let ghost cs0 = self.compilers@; let ghost n = self.compilers@.len() as int; let ghost nm = name.source@;
     //@  loop 0 invariant self.pwf(), self.compilers@ == cs0, cs0 == old(self).compilers@, n == cs0.len(), n >= 2, nm == name.source@, __k0 <= n - 1
     //@  loop 0 invariant old(self).has_error() ==> self.has_error(), self.errors == old(self).errors
-    //@  loop 0 invariant forall|k: int| __k0 <= k < n - 1 ==> !resolvable(#[trigger] cs0[k], nm)
+    //@  loop 0 invariant forall|k: int| __k0 <= k < n - 1 ==> (#[trigger] cs0[k]).no_match(nm)
     //@  loop 0 decreases __k0
     //@  loop 1 iter it
     //@  loop 1 invariant self.pwf(), self.compilers@.len() == n, cs0 == old(self).compilers@, n == cs0.len(), nm == name.source@, 0 <= enclosing < n - 1, current == enclosing + 1
     //@  loop 1 invariant old(self).has_error() ==> self.has_error(), it.snapshot.start == current, it.snapshot.end == n
     //@  loop 1 invariant forall|k: int| 0 <= k < n ==> capture_frame(#[trigger] cs0[k], self.compilers@[k])
     //@  loop 1 invariant cs0[enclosing as int].is_last_match(i0 as int, nm) && cs0[enclosing as int].locals[i0 as int].depth.is_some() && self.compilers@[enclosing as int].locals[i0 as int].is_captured
-    //@  loop 1 invariant forall|k: int| enclosing < k < n - 1 ==> !resolvable(#[trigger] cs0[k], nm)
+    //@  loop 1 invariant forall|k: int| enclosing < k < n - 1 ==> (#[trigger] cs0[k]).no_match(nm)
     //@  loop 1 invariant it.index@ == 0 ==> index == i0
     //@  loop 1 invariant it.index@ > 0 ==> chain(self.compilers@, current + it.index@ - 1, index as int, enclosing as int, i0 as int)
     //@  before_stmt "let mut index = index" let ghost i0 = index;
@@ -858,7 +858,7 @@ impl Parser {
     //@  ensures final(self).code() == old(self).code()
     //@  ensures (r.0 is GetLocal) ==> (r.1 is SetLocal) && old(self).cur().is_last_match(r.2 as int, name.source@) && old(self).cur().locals[r.2 as int].depth.is_some()
     //@  ensures (r.0 is GetUpvalue) ==> (r.1 is SetUpvalue) && captured_somewhere(old(self).compilers@, final(self).compilers@, r.2 as int, name.source@) && (old(self).cur().no_match(name.source@) || final(self).has_error())
-    //@  ensures (r.0 is GetGlobal) ==> (r.1 is SetGlobal) && (final(self).has_error() || (old(self).cur().no_match(name.source@) && forall|k: int| 0 <= k < old(self).compilers.len() - 1 ==> !resolvable(#[trigger] old(self).compilers@[k], name.source@)))
+    //@  ensures (r.0 is GetGlobal) ==> (r.1 is SetGlobal) && (final(self).has_error() || (old(self).cur().no_match(name.source@) && forall|k: int| 0 <= k < old(self).compilers.len() - 1 ==> (#[trigger] old(self).compilers@[k]).no_match(name.source@)))
     //@  ensures (r.0 is GetLocal) || (r.0 is GetUpvalue) || (r.0 is GetGlobal)
     //@end
 
